@@ -16,7 +16,8 @@ RULE = ("bounded-exhaustive enumeration (E1) of well-formed discovery replies bu
         "values and palindromes up to 2^48-1) x ports x serial numbers x names net_<tt>_<suffix> for all 256 appliance type bytes in "
         "lower and upper hex x reported IP equal / different x V2 / V3 wrapper x listening port 6445 / 20086; full sweep of every "
         "axis plus a pairwise product, 12 hosts per simulated broadcast; discover() and discover_single(); one variant with "
-        "auto-connect against simulated V2 air conditioners. The responders only answer a probe that is a valid V2 envelope "
+        "auto-connect against simulated V2 air conditioners; hosts answering spread over the whole discovery window; a subnet-directed broadcast "
+        "target and a DNS name as discover_single target; replies whose last byte is LF / CR / space / NUL / TAB. The responders only answer a probe that is a valid V2 envelope "
         "(length, MD5, decryptable) on the documented ports. Oracle: multiset of (source address, port, id, serial, name, type, "
         "version, class is AirConditioner iff type 0xAC). non-trivial = every host")
 ASSUMPTIONS = ["reply layout as in the two captured vectors of the repository's tests (decoded by the reference codec as a cross-check)",
@@ -67,6 +68,22 @@ def all_hosts():
     return out
 
 
+def lastbyte_hosts():
+    """Well-formed replies whose LAST byte (part of the trailing digest nobody interprets) is a text-like value: found by
+    varying the serial number until the digest ends in the wanted byte."""
+    out = []
+    for version in (2, 3):
+        for want in (0x0A, 0x0D, 0x20, 0x00, 0x09):
+            for n in range(20000):
+                sn = f"{n:032d}"
+                dg = sd.reply(version, 0x0102030405 + want, "10.9.9.9", 6444, sn, "net_ac_0A0D")
+                if dg[-1] == want:
+                    out.append({"id": 0x0102030405 + want, "port": 6444, "sn": sn, "type": 0xAC, "name": "net_ac_0A0D", "same_ip": False,
+                                "version": version, "lport": 6445, "datagram": dg})
+                    break
+    return out
+
+
 def shards(tier):
     n = len(all_hosts())
     per = 12
@@ -74,6 +91,10 @@ def shards(tier):
     out = [("broadcast", g) for g in groups]
     out += [("single", g) for g in groups[::6]]
     out += [("autoconnect", g) for g in groups[::8]]
+    out += [("late", g) for g in groups[::5]]
+    out += [("directed", g) for g in groups[::7]]
+    out += [("hostname", g) for g in groups[::9]]
+    out += [("lastbyte", 0)]
     return out
 
 
@@ -84,7 +105,11 @@ def run_group(mode: str, descs: list[dict]):
         ip = f"10.1.{k // 200}.{k % 200 + 10}"
         d["ip"] = ip
         rep_ip = ip if d["same_ip"] else f"192.168.77.{k + 1}"
-        hosts.append(sd.Host(ip, sd.reply(d["version"], d["id"], rep_ip, d["port"], d["sn"], d["name"]), listen_port=d["lport"]))
+        # "late": the hosts answer spread over the whole discovery window (the slowest a little before it closes)
+        # (with quiet periods of more than 2 s in between)
+        delay = [0.0, 0.2, 2.6, 2.7, 4.7, 4.8][k % 6] if mode == "late" else 0.0
+        hosts.append(sd.Host(ip, d.get("datagram") or sd.reply(d["version"], d["id"], rep_ip, d["port"], d["sn"], d["name"]), listen_port=d["lport"],
+                             delay=delay, hostname=f"ac-{k}.home.lan" if mode == "hostname" else None))
     pop = sd.Population(hosts)
     w.net.udp_responder = pop
     if mode == "autoconnect":
@@ -96,6 +121,12 @@ def run_group(mode: str, descs: list[dict]):
         if mode == "single":
             r = await Discover.discover_single(descs[0]["ip"], auto_connect=False)
             return [r] if r is not None else []
+        if mode == "hostname":
+            # the documented "hostname or IP" form: the name resolves to the device, replies come from its address
+            r = await Discover.discover_single("ac-0.home.lan", auto_connect=False)
+            return [r] if r is not None else []
+        if mode == "directed":
+            return await Discover.discover(target="10.1.0.255", auto_connect=False)
         return await Discover.discover(auto_connect=(mode == "autoconnect"))
 
     try:
@@ -114,7 +145,9 @@ def run_shard(shard, tier) -> Stats:
     mode, g = shard
     st = Stats()
     descs = [dict(d) for d in all_hosts()[g:g + 12]]
-    if mode == "single":
+    if mode == "lastbyte":
+        descs = lastbyte_hosts()
+    if mode in ("single", "hostname"):
         descs = descs[:3]
     if mode == "autoconnect":
         descs = [d for d in descs if d["version"] == 2] or descs[:1]
@@ -125,7 +158,7 @@ def run_shard(shard, tier) -> Stats:
         st.ev((mode, g), "raised", True)
         return st
     got = sorted(ident(d) for d in out[1])
-    expect_descs = descs[:1] if mode == "single" else descs
+    expect_descs = descs[:1] if mode in ("single", "hostname") else descs
     want = sorted((d["ip"], d["port"], d["id"], d["sn"], d["name"], d["type"], d["version"],
                    "AirConditioner" if d["type"] == 0xAC else "Device") for d in expect_descs)
     # hosts only answer a probe that is a valid discovery request on their port, so an unusable probe shows up as missing
